@@ -990,6 +990,450 @@ class CollapseStream(RewriteStream):
                         acc["number_at_both_levels"] = acc.get("number_at_both_levels", 0) + 1
 
 
+# {{{ directed family: sparse polynomials written term by term
+
+class SparseGen:
+    """polynomial expressions made of SPARSE polynomials written term by term: every term is a
+    monomial `c * v1**k1 * v2**k2 ...` whose coefficient is an arbitrary small integer (a sign, 1
+    left out or written), whose powers are written as a variable, a literal power, or split into
+    several factors of one base, and which may carry BOUNDARY factors `v**0` (and `v**1`) of
+    variables it does not otherwise contain.  Shapes: a power (exponent 0 .. 4) of a sum of 2-3
+    such monomials, products of 2-3 such sums, a sum times the square of a sum, sums of these --
+    and, for the like-term clause, any of these PLUS like terms of its own expansion (some, or all
+    of them negated so that everything cancels)."""
+
+    def __init__(self, rng, zero_exp=0.15, nvars=3):
+        self.rng = rng
+        self.zero_exp = zero_exp
+        self.vars = VARS[:nvars]
+
+    def coefficient(self):
+        return self.rng.choice([1, 1, 1, -1, -1, 2, 2, -2, 3, -3, 4])
+
+    def power(self, v, k):
+        r = self.rng
+        if k == 1 and r.random() < 0.8:
+            return [p.Variable(v)]
+        if k >= 2 and r.random() < 0.15:
+            j = r.randint(1, k - 1)
+            return self.power(v, j) + self.power(v, k - j)
+        return [p.Power(p.Variable(v), k)]
+
+    def power_product(self):
+        r = self.rng
+        vs = r.sample(self.vars, min(len(self.vars), r.choice([0, 1, 1, 1, 2, 2, 3])))
+        return [(v, r.choice([1, 1, 2, 2, 3])) for v in vs]
+
+    def monomial(self, c=None, mono=None):
+        r = self.rng
+        if c is None:
+            c = self.coefficient()
+        if mono is None:
+            mono = self.power_product()
+        fs = []
+        for v, k in mono:
+            fs += self.power(v, k)
+        for v in self.vars:
+            if r.random() < self.zero_exp and all(v != w for w, _ in mono):
+                fs.append(p.Power(p.Variable(v), 0))
+        r.shuffle(fs)
+        if c != 1 or not fs or r.random() < 0.1:
+            fs.insert(r.choice([0, 0, len(fs)]), c)
+        return fs[0] if len(fs) == 1 and r.random() < 0.9 else p.Product(tuple(fs))
+
+    def sparse(self, n):
+        ts = [self.monomial() for _ in range(n)]
+        return ts[0] if n == 1 and self.rng.random() < 0.5 else p.Sum(tuple(ts))
+
+    def shape(self, d=1):
+        r = self.rng
+        k = r.random()
+        if k < 0.45:
+            return p.Power(self.sparse(r.choice([2, 2, 2, 3])), r.choice([0, 1, 2, 2, 2, 3, 3, 4]))
+        if k < 0.7:
+            return p.Product(tuple(self.sparse(r.choice([1, 2, 2, 3]))
+                                   for _ in range(r.choice([2, 2, 3]))))
+        if k < 0.8:
+            return p.Product((self.sparse(2), p.Power(self.sparse(2), 2)))
+        if k < 0.9 and d > 0:
+            return p.Sum((*(self.shape(d - 1) for _ in range(2)), self.monomial()))
+        return self.sparse(r.choice([2, 3, 4]))
+
+    def like_terms(self, e, how):
+        """like terms of the polynomial `e` denotes, written afresh: `how` = "some" (1-2 of its
+        monomials with the negated or another coefficient) or "all" (minus every term of it)"""
+        r = self.rng
+        n, _d = rf.ratfun(e, allow_quotients=False)
+        ms = sorted(n.items()) or [((), Fraction(1))]
+        if how == "all":
+            out = [self.monomial(c=int(-c), mono=list(m)) for m, c in ms]
+            r.shuffle(out)
+            return out
+        out = []
+        for _ in range(r.choice([1, 1, 2])):
+            m, c = r.choice(ms)
+            out.append(self.monomial(c=r.choice([int(-c), int(-c), self.coefficient()]),
+                                     mono=list(m)))
+        return out
+
+    def expression(self, like=None):
+        e = self.shape()
+        if like is not None:
+            try:
+                e = p.Sum((e, *self.like_terms(e, like)))
+            except rf.TooBig:
+                pass
+        return e
+
+
+def binomial_shapes():
+    """ALL powers 2, 3 of a two-term sum whose terms are drawn from a small set of monomials with
+    a coefficient / sign and a power among the factors, and the same with one like term of the
+    expansion's highest monomials next to it"""
+    x2, y3 = p.Power(x, 2), p.Power(y, 3)
+    monos = [1, x, y, x2, p.Product((2, x2)), p.Product((-1, y3)), p.Product((x2, y)),
+             p.Product((3, x, y)), p.Product((p.Power(x, 0), y))]
+    out = []
+    for a, b in itertools.permutations(monos, 2):
+        for n in (2, 3):
+            e = p.Power(p.Sum((a, b)), n)
+            out.append(e)
+            for t in (a, b):
+                # minus t**n, written as ONE monomial (exact arithmetic of the reference)
+                tn, _d = rf.ratfun(p.Power(t, n), allow_quotients=False)
+                out.append(p.Sum((e, rf.poly_to_expr(rf.p_mul(rf.p_const(-1), tn)))))
+    return out
+
+
+def term_factors(r):
+    """the terms of an expanded result, each as the sorted list of its factors (as text): terms
+    are compared up to the order of their factors and of the terms"""
+    ts = r.children if isinstance(r, p.Sum) else (r,)
+    return sorted(sorted(dumps(expr_to_sx(f)) for f in
+                         (t.children if isinstance(t, p.Product) else (t,))) for t in ts)
+
+
+def zero_power_of_sum(res):
+    return any(isinstance(s, p.Power) and rf._is_int(s.exponent) and s.exponent == 0
+               and any(isinstance(t, p.Sum) for t in rf.subterms(s.base))
+               for s in rf.subterms(res))
+
+
+class SparseExpandStream(RewriteStream):
+    """`expand` on the family `SparseGen` (+ all small binomial powers): correspondence as in
+    `rewrites`; oracles: the parent's (value decided exactly, non-failure), the normal-form clause
+    on polynomial expressions INCLUDING the boundary exponent 0 (no sum beneath a product / integer
+    power, every term one monomial, like terms merged: inputs carrying like terms of their own
+    expansion must come back with them merged / cancelled), and the last clause literally: the
+    input and the term-by-term written expansion of the same polynomial (independent exact
+    arithmetic) expand to sums with EQUAL TERM MULTISETS, terms compared as written (up to the
+    order of factors and terms)."""
+    name = "expand-sparse-polynomials"
+    ops = ("expand",)
+    all_nodes = True        # (no extra fixed shapes from the parent)
+
+    def cases(self, rng, tier):
+        n = 700 if tier == "quick" else 9000
+        for i in range(n):
+            g = SparseGen(rng, zero_exp=0.15 if i % 2 else 0.0, nvars=3 if i % 4 else 2)
+            e = g.expression(like=(None, "some", "all", None, "some")[i % 5])
+            yield {"op": "expand", "expr": dumps(expr_to_sx(e)), "params": [], "family": "sparse"}
+        shapes = binomial_shapes()
+        if tier == "quick":
+            shapes = rng.sample(shapes, 150)
+        for e in shapes:
+            yield {"op": "expand", "expr": dumps(expr_to_sx(e)), "params": [], "family": "binomial"}
+
+    _memo = (None, None)
+
+    def _run(self, pl):
+        key = (pl["op"], pl["expr"], tuple(pl["params"]))
+        if self._memo[0] != key:
+            self._memo = (key, super()._run(pl))
+        return self._memo[1]
+
+    def oracle(self, pl):
+        f = super().oracle(pl)
+        e, res, ex = self._run(pl)
+        if f is not None or ex is not None:
+            return f
+        if not rf.is_polynomial_expr(e, min_exp=0):
+            return None
+        try:
+            v = rf.expand_nf_violation(res)
+        except rf.TooBig:
+            return None
+        except rf.NotRational:
+            v = "term-not-polynomial"
+        if v == "sum-beneath-power" and zero_power_of_sum(res):
+            return Failure("expand-nf-sum-beneath-zero-power", f"{e} -> {res}", pl)
+        if v:
+            return Failure(expand_nf_key(e, v), f"{e} -> {res}", pl)
+        # equal polynomials -> equal term multisets: against the expansion written term by term
+        try:
+            n, _d = rf.ratfun(e, allow_quotients=False)
+        except (rf.TooBig, rf.NotRational):
+            return None
+        q = rf.poly_to_expr(n)
+        try:
+            rq = run_op("expand", q)
+        except RecursionError:
+            raise
+        except Exception as exq:
+            return Failure(f"expand-raises-{type(exq).__name__}-on-polynomial", f"{q}: {exq}", pl)
+        try:
+            same = rf.term_multiset(res) == rf.term_multiset(rq)
+        except (rf.TooBig, rf.NotRational):
+            return None
+        if same and isinstance(res, p.Sum) and isinstance(rq, p.Sum):
+            # (a result that is no sum never went through term collection: a lone term such as
+            # y*y is returned as written, see the known finding expand-nf-zero-term)
+            same = term_factors(res) == term_factors(rq)
+        if not same:
+            key = "expand-equal-polys-differ"
+            if has_leading_factor_shape(e):
+                key = "expand-nf-sum-beneath-product"
+            elif has_opaque_power_base(e):
+                key = "expand-nf-nested-power"
+            return Failure(key, f"{e} -> {res!r}  but  {q} -> {rq!r}", pl)
+        return None
+
+    def stats(self, pl, mo, io, acc):
+        super().stats(pl, mo, io, acc)
+        fam = pl.get("family", "?")
+        acc[fam] = acc.get(fam, 0) + 1
+        if "(Int 0))" in pl["expr"]:
+            acc["with_zero_exponent"] = acc.get("with_zero_exponent", 0) + 1
+
+# }}}
+
+
+# {{{ directed family: non-ring nodes whose operands are / become neutral elements
+
+#: deterministic evaluation points: rationals that are not integers for x, y, z (and integers,
+#: zeros, ones, signs), integers for i, j, both truth values for b, c
+NEUTRAL_POINTS = [
+    {"x": Fraction(1, 2), "y": Fraction(-7, 3), "z": Fraction(5, 4), "i": 2, "j": -3, "b": True, "c": False},
+    {"x": 3, "y": -2, "z": 1, "i": 0, "j": 1, "b": False, "c": True},
+    {"x": Fraction(-3, 2), "y": Fraction(5, 3), "z": 2, "i": -1, "j": 4, "b": True, "c": True},
+    {"x": 0, "y": 1, "z": Fraction(1, 2), "i": 5, "j": 0, "b": False, "c": False},
+    {"x": Fraction(7, 2), "y": Fraction(1, 3), "z": Fraction(-1, 4), "i": 1, "j": 2, "b": False, "c": True},
+    {"x": -1, "y": 0, "z": -1, "i": -4, "j": -1, "b": True, "c": False},
+    {"x": 1, "y": Fraction(9, 4), "z": 0, "i": 3, "j": 3, "b": True, "c": True},
+]
+
+
+def neutral_forms(value, rng=None):
+    """ways of writing 0 / 1 / -1 as an operand: the literal, and small trees that flattening (or
+    folding) turns into it"""
+    if value == 1:
+        forms = [1, p.Product((1, 1)), p.Sum((0, 1)), p.Sum((1, p.Sum((0, 0)))), p.Product((1,)),
+                 p.Product(()), p.Sum((2, -1)), p.Product((-1, -1))]
+    elif value == 0:
+        forms = [0, p.Sum((0, 0)), p.Sum(()), p.Product((1, 0)), p.Sum((0,)),
+                 p.Product((0, x)), p.Sum((1, -1))]
+    else:
+        forms = [-1, p.Product((-1, 1)), p.Sum((0, -1)), p.Sum((-1,)), p.Sum((1, -2))]
+    return forms if rng is None else rng.choice(forms)
+
+
+NEUTRAL_PLAIN = [x, y, 2, 3, p.Sum((x, p.Sum((y, 0)))), p.Product((x, p.Product((1, y)))), 5,
+                 p.Product((1, 3)), p.Sum((y, 0))]
+
+BINARY_NODES = (p.Quotient, p.FloorDiv, p.Remainder, p.Power)
+
+
+def neutral_contexts(node):
+    return [node, p.Sum((node, p.Sum((y, 0)))), p.Product((2, p.Product((node, 1))))]
+
+
+def neutral_shapes(quick):
+    """every binary node of {/, //, %, **} x operand pairs in which at least one side is / becomes
+    0, 1 or -1 (all written forms on the right, the literal and two forms on the left), bare and
+    inside a sum / a product that is itself flattened"""
+    out = []
+    for cls in BINARY_NODES:
+        for v in (1, 0, -1):
+            forms = neutral_forms(v)
+            for a in NEUTRAL_PLAIN[:5] if quick else NEUTRAL_PLAIN:
+                for nf in forms:
+                    out += neutral_contexts(cls(a, nf))
+                for nf in forms[:3]:
+                    out += neutral_contexts(cls(nf, a))
+            for nf in forms[:3]:
+                for w in (1, 0, -1):
+                    out.append(cls(nf, neutral_forms(w)[1]))
+    return out
+
+
+class NeutralGen:
+    """random trees over ALL operator nodes (/, //, %, **, shifts, bitwise, min / max, comparisons,
+    conditionals, logical connectives, calls, CSE wrappers) in which operands are, with high
+    probability, written neutral elements (0, 1, -1 as literals or as trees that flatten / fold to
+    them) -- the operands a 'drop the neutral element' rule would look at -- over rational
+    variables x, y, z, integer variables i, j and boolean variables b, c"""
+
+    def __init__(self, rng):
+        self.rng = rng
+
+    def neutral(self):
+        return neutral_forms(self.rng.choice([1, 1, 0, 0, -1]), self.rng)
+
+    def num(self, d):
+        r = self.rng
+        k = r.random()
+        if d <= 0 or k < 0.25:
+            return r.choice([x, y, z, x, y, 2, 3, -2])
+        if k < 0.45:
+            return self.neutral()
+        if k < 0.6:
+            return r.choice([p.Sum, p.Product])(tuple(self.num(d - 1) for _ in range(r.randint(1, 3))))
+        return self.node(d)
+
+    def intval(self, d):
+        r = self.rng
+        k = r.random()
+        if d <= 0 or k < 0.4:
+            return r.choice([p.Variable("i"), p.Variable("j"), 2, 1, 0, 3])
+        if k < 0.7:
+            return self.neutral()
+        return r.choice([p.Sum, p.Product])((self.intval(d - 1), self.intval(d - 1)))
+
+    def node(self, d):
+        r = self.rng
+        k = r.choice(["quot", "floordiv", "rem", "floordiv", "rem", "pow", "shift", "bit", "minmax",
+                      "cmp", "if", "logic", "call", "cse"])
+        a = self.num(d - 1)
+        b = self.neutral() if r.random() < 0.6 else self.num(d - 1)
+        if r.random() < 0.25:
+            a, b = b, a
+        if k == "quot":
+            return p.Quotient(a, b)
+        if k == "floordiv":
+            return p.FloorDiv(a, b)
+        if k == "rem":
+            return p.Remainder(a, b)
+        if k == "pow":
+            return p.Power(a, r.choice([0, 1, 2, -1]) if r.random() < 0.6 else self.neutral())
+        if k == "shift":
+            return r.choice([p.LeftShift, p.RightShift])(self.intval(d - 1), r.choice(
+                [0, 1, self.neutral(), self.intval(d - 1)]))
+        if k == "bit":
+            return r.choice([p.BitwiseOr, p.BitwiseAnd, p.BitwiseXor])(
+                (self.intval(d - 1), r.choice([0, -1, 1, self.neutral()])))
+        if k == "minmax":
+            return r.choice([p.Min, p.Max])((a, b))
+        if k == "cmp":
+            return p.Comparison(a, r.choice(["<", "<=", "==", "!=", ">", ">="]), b)
+        if k == "if":
+            return p.If(r.choice([p.Variable("b"), p.Comparison(a, "<", b), self.neutral()]),
+                        self.num(d - 1), self.num(d - 1))
+        if k == "logic":
+            return r.choice([p.LogicalOr, p.LogicalAnd])(
+                (r.choice([p.Variable("b"), p.Variable("c"), self.neutral()]),
+                 p.Comparison(a, "<=", b)))
+        if k == "call":
+            return p.Call(p.Variable("f"), (a, b))
+        return p.CommonSubexpression(p.FloorDiv(a, b) if r.random() < 0.5 else p.Remainder(a, b))
+
+    def gen(self, depth):
+        e = self.node(depth)
+        k = self.rng.random()
+        if k < 0.2:
+            return p.Sum((e, self.neutral(), self.num(1)))
+        if k < 0.4:
+            return p.Product((self.num(1), e, self.neutral()))
+        return e
+
+
+def neutral_env(pt):
+    from ..gen import Func
+    env = dict(pt)
+    env["f"] = Func("f")
+    env["g"] = Func("g")
+    return env
+
+
+def point_value_failure(op, e, res, points=NEUTRAL_POINTS):
+    """value preservation at the given points: exact evaluation with Python's own operators on
+    int / bool / Fraction (`rf.xeval`); demanded wherever the input has an exact value"""
+    from ..oracles.pyeval import loosely_equal
+    for pt in points:
+        env = neutral_env(pt)
+        try:
+            vin = rf.xeval(e, env)
+        except RecursionError:
+            raise
+        except Exception:
+            continue
+        if rf.has_float(vin):
+            continue
+        shown = {k: str(v) for k, v in pt.items()}
+        try:
+            vout = rf.xeval(res, env)
+        except RecursionError:
+            raise
+        except Exception as ex:
+            return Failure(f"{op}-value", f"{e} -> {res}: input = {vin!r}, output raises "
+                           f"{type(ex).__name__} at {shown}")
+        if rf.has_float(vout):
+            continue
+        if not loosely_equal(vin, vout):
+            return Failure(f"{op}-value", f"{e} -> {res}: input = {vin!r}, output = {vout!r} at {shown}")
+    return None
+
+
+class NeutralOperandStream(RewriteStream):
+    """flatten and both folders on operator nodes OUTSIDE the ring operations whose operands are /
+    become neutral elements (`neutral_shapes`: exhaustive for / // % **; `NeutralGen`: all
+    operator nodes, nested): the value clause 'for all node types, all environments' judged at
+    rational points that are NOT integers (x // 1 = x, x % 1 = 0, x // -1 = -x hold on the integers
+    only), at integers, zeros and signs, with Python's own operators on int / bool / Fraction as
+    the reference; normal-form clauses and correspondence as in `rewrites-all-node-types`."""
+    name = "rewrites-neutral-operands"
+    ops = ("flatten", "fold-plain", "fold-comm")
+    all_nodes = True
+
+    def cases(self, rng, tier):
+        quick = tier == "quick"
+        for e in neutral_shapes(quick):
+            for op in (("flatten",) if quick else self.ops):
+                yield {"op": op, "expr": dumps(expr_to_sx(e)), "params": [], "family": "shapes"}
+        n = 900 if quick else 12000
+        for i in range(n):
+            g = NeutralGen(rng)
+            e = g.gen(rng.choice([1, 2, 2, 3]))
+            yield {"op": self.ops[i % 3], "expr": dumps(expr_to_sx(e)), "params": [],
+                   "family": "random"}
+
+    _memo = (None, None)
+
+    def _run(self, pl):
+        key = (pl["op"], pl["expr"], tuple(pl["params"]))
+        if self._memo[0] != key:
+            self._memo = (key, super()._run(pl))
+        return self._memo[1]
+
+    def oracle(self, pl):
+        f = super().oracle(pl)
+        e, res, ex = self._run(pl)
+        if f is not None or ex is not None:
+            return f
+        f = point_value_failure(pl["op"], e, res)
+        if f is not None:
+            if has_empty_seq_cse(e):
+                f.key = "cse-empty-sequence-collapses"
+            f.payload = pl
+        return f
+
+    def stats(self, pl, mo, io, acc):
+        super().stats(pl, mo, io, acc)
+        fam = pl.get("family", "?")
+        acc[fam] = acc.get(fam, 0) + 1
+
+# }}}
+
+
 class AllNodesStream(RewriteStream):
     """flatten and both folders on every node type (type-directed generator, no floats)"""
     name = "rewrites-all-node-types"
@@ -1265,6 +1709,11 @@ def probes():
     res = pymbolic.expand(p.Power(0, 3))
     out.append(("expand-nf-zero-term", rf.expand_nf_violation(res) == "zero-term",
                 f"expand(Power(0, 3)) = {res!r}"))
+    e = p.Product((p.Power(p.Sum((x, 1)), 0), y))
+    res = pymbolic.expand(e)
+    out.append(("expand-nf-sum-beneath-zero-power",
+                rf.expand_nf_violation(res) == "sum-beneath-power" and zero_power_of_sum(res),
+                f"expand({e}) = {res}"))
     res = pymbolic.flatten(p.CommonSubexpression(()))
     out.append(("cse-empty-sequence-collapses", res == 0 and not isinstance(res, tuple),
                 f"flatten(CommonSubexpression(())) = {res!r}"))
@@ -1286,11 +1735,12 @@ def extract(ctx=None):
 PROP = Prop(
     id="C11",
     title="Algebraic rewrites preserve value and reach their normal forms",
-    lean_targets=["PV.Properties.C11", "PV.Properties.C11Table"],
+    lean_targets=["PV.Properties.C11", "PV.Properties.C11Table", "PV.Properties.C11Clauses"],
     theorems=[],
     extractors=[extract],
     streams=[RewriteStream(), AllNodesStream(), TableRewriteStream(), TableAllNodesStream(),
-             ValidatedExpandStream(), EqualPolysStream(), CollapseStream()],
+             ValidatedExpandStream(), EqualPolysStream(), CollapseStream(),
+             SparseExpandStream(), NeutralOperandStream()],
     probes=[probes],
     trusted_base=["Lean 4.33 kernel + Mathlib (Field, zpow, ring/field_simp); axioms propext, Classical.choice, Quot.sound only",
                   "harness serialisation; outputs of collect/expand are compared after sorting the children of every Sum/Product on both sides (TermCollector iterates a frozenset: order depends on string hashes)",
